@@ -5,7 +5,7 @@ import json
 import re
 
 BLANK = {
-    "e": "", "who": "", "cid": 0, "api": "", "id": 0, "body": ["empty", ""], "big": False, "large": False, "et": "",
+    "e": "", "who": "", "cid": 0, "api": "", "id": 0, "body": ["empty", ""], "big": False, "large": False, "slow": False, "et": "",
     "name": "", "events": [], "idc": "ok", "agen": 0, "which": "", "feat": False,
     "status": 0, "kind": "", "inv": 0, "pl": 0, "reason": "", "net": "",
     "base": "", "gen": 0, "pk": "", "err": "", "cause": "",
@@ -153,6 +153,7 @@ def project(raw_events, scenario, bound=None):
     # per invocation: what the caller passed in, for the data checks of delivered events
     invinfo = {}
     inv_label = {}      # invocation ordinal -> label of its payload
+    slow_cid = {}       # name of a slowly sent request body -> its call
     for ev in raw_events:
         if ev.get("ev") == "InvokeCall":
             invinfo[ev["k"]] = {"ctx": ev.get("ctx", ""), "trace": ev.get("trace", ""), "now": ev.get("nowMs", 0),
@@ -234,6 +235,9 @@ def project(raw_events, scenario, bound=None):
                 o["body"] = body_label(ev.get("body"))
                 o["big"] = ev.get("size", 0) > MAX_PAYLOAD
                 o["et"] = ev.get("errType", "")
+                if ev.get("slow"):
+                    o["slow"] = True
+                    slow_cid[ev["slow"]] = ev["seq"]
             elif kind == "InitErrCall":
                 o["body"] = body_label(ev.get("body"))
                 o["et"] = sanitise(ev.get("errType", ""))
@@ -326,7 +330,12 @@ def project(raw_events, scenario, bound=None):
         elif kind == "StateSeen":
             o.update(e="Obs", who=who_of(ev.get("who", "")), name=ev.get("state", ""))
         elif kind in ("HookEnter", "HookLeave"):
-            if (ev.get("point", "") or "").startswith("drv."):
+            pt = ev.get("point", "") or ""
+            if pt.startswith("drv.body:") and kind == "HookLeave" and pt[len("drv.body:"):] in slow_cid:
+                o.update(e="BodyDone", cid=slow_cid[pt[len("drv.body:"):]])     # the rest of a slowly sent body goes out now
+                out.append(o)
+                continue
+            if pt.startswith("drv."):
                 continue        # a pause point of the driver (e.g. a caller's stalled connection), not of the emulator
             o.update(e="Hook", ph="enter" if kind == "HookEnter" else "leave", point=ev.get("point", ""))
         elif kind == "Missing":
